@@ -222,6 +222,12 @@ class JoltDistance(PairScenario):
 
     tol_k = 1e-5
 
+    def observable(self, out):
+        d, pa, pb = out
+        if pa is None:
+            return [d]
+        return [d, SUB(list(pa), list(pb))]      # the points themselves are not unique when the sets overlap
+
     def check(self, cx, inp, out, ob):
         (SA, MA), (SB, MB) = self.sets(inp)
         d, pa, pb = out
@@ -271,3 +277,61 @@ def pair_jobs(tier, seed, algo=None, n_pairs_quick=10, extra=None):
                              P[j].get("mesh", P[j].get("pts", "box")) + ("" if P[j]["type"] != "mesh" else "mesh"))
             J.append({"family": fam, "args": a})
     return J
+
+
+# ---------------------------------------------------------------- C02: Boolean tests
+BOOL_ALGOS = ["jolt", "libccd", "mpr", "nesterov", "nesterov_prim"]
+
+
+def call_bool(algo, a, b):
+    import distance3d.gjk as G
+    import distance3d.mpr as M
+    if algo == "jolt":
+        return G.gjk_intersection_jolt(a, b)
+    if algo == "libccd":
+        return G.gjk_intersection_libccd(a, b)
+    if algo == "mpr":
+        return M.mpr_intersection(a, b)
+    if algo == "nesterov":
+        return G.gjk_nesterov_accelerated_intersection(a, b)
+    if algo == "nesterov_acc":
+        return G.gjk_nesterov_accelerated_intersection(a, b, use_nesterov_acceleration=True)
+    if algo == "nesterov_prim":
+        return G.gjk_nesterov_accelerated_primitives_intersection(a, b)
+    raise KeyError(algo)
+
+
+class BoolTest(PairScenario):
+    """answer False  =>  no point lies delta-inside both;  answer True => no plane separates with gap >= delta.
+    The witness point x and the plane (n, s) are additional free variables (universally quantified)."""
+    delta_k = 1e-3
+
+    def aux_params(self):
+        B = 8.0
+        return [("aux_x", -B, B), ("aux_y", -B, B), ("aux_z", -B, B),
+                ("aux_nx", -1.0, 1.0), ("aux_ny", -1.0, 1.0), ("aux_nz", -1.0, 1.0), ("aux_s", -B, B)]
+
+    def call(self, cx, inp):
+        a, b = self.colliders(cx, inp)
+        cnt = self.count_supports(a, b)
+        r = call_bool(self.algo, a, b)
+        self._n_support = cnt["n"]
+        return [bool(r)]
+
+    def check(self, cx, inp, out, ob):
+        (SA, MA), (SB, MB) = self.sets(inp)
+        r = out[0]
+        delta = self.delta_k * self.L
+        P = cx.P
+        if not r:
+            if SA.is_solid() and SB.is_solid():
+                x = [P["aux_x"], P["aux_y"], P["aux_z"]]
+                ob.require("no_miss_of_clear_overlap",
+                           exact=NOT(AND(SA.strictly_inside(MA, x, delta), SB.strictly_inside(MB, x, delta))))
+        else:
+            n = [P["aux_nx"], P["aux_ny"], P["aux_nz"]]
+            s = P["aux_s"]
+            VA, VB = SA.world_vertices(MA), SB.world_vertices(MB)
+            sep = AND(NORM2(n) <= 1.0, AND(*[DOT(n, v) >= s + delta for v in VA]), AND(*[DOT(n, v) <= s for v in VB]))
+            ob.require("no_report_of_clear_gap", exact=NOT(sep))
+        ob.require("support_evals_le_1000", exact=(self._n_support <= 1000))
